@@ -1,12 +1,135 @@
 /- Driver operations of contributor `Sim` (translated-code ties): run GENERATED functions so the harness can compare them with the real code.
-   Wired into the cluster drivers by a fall-through; return `none` for names that are not yours. -/
+   Wired into the cluster drivers by a fall-through; return `none` for names that are not yours.
+
+   `sim_fnat`   (cluster G)  `GenS.compute_fnat_pdb2sql` and `GenS.compute_clashes` on record lines (parser = the parser's model, `_fix_chainID` = its
+                             model), each with two iteration orders of Python sets (identity, reversed)
+   `sim_sql`    (cluster E)  `GenS.check_residues`, `GenS.get_identical_atoms`, `GenS.get_izone_rowID`, `GenS.compute_lrmsd_pdb2sql`,
+                             `GenS.compute_irmsd_pdb2sql` on record lines.  The rotation kernel is a parameter of the two routes: the harness sends
+                             what NumPy's kernel was called with and what it returned in the real run (`{"P","Q","R"}` | `{"err"}` | null); the
+                             parameter checks that the generated code calls it with the same arrays (1e-6) and answers with the recorded matrix.
+   `sim_export` (cluster E)  the export variants `GenS.compute_lrmsd_pdb2sql_export` / `GenS.compute_irmsd_pdb2sql_export`: value and exported rows -/
 import PdbVerif.Driver.Json
+import PdbVerif.Driver.GCommon
+import PdbVerif.Model.Fnat
+import PdbVerif.Gen.Sim
 
 namespace Driver.ExtSim
-open Lean Driver
+open Lean Driver Driver.GCommon Py
+
+def tableOf (lines : List Str) : Except Err (List Atom) := Model.Fnat.tableOfLines lines
+
+/-- the world: two named files -/
+def world (dec ref : List Str) (name : Str) : Except Err (List Atom) :=
+  if name = "dec".toList then tableOf dec else if name = "ref".toList then tableOf ref else .error .fileNotFound
+
+def ordId : ∀ {α : Type}, List α → List α := fun l => l
+def ordRev : ∀ {α : Type}, List α → List α := fun l => l.reverse
+
+def p3J (p : Vec3 Rat) : Json := .arr #[ratJ p.x, ratJ p.y, ratJ p.z]
+def p3sJ (l : List (Vec3 Rat)) : Json := .arr (l.map p3J).toArray
+
+def jPoints (j : Json) (k : String) : Except String (List (Vec3 Rat)) := do
+  let a ← jArr j k
+  a.toList.mapM (fun row => match row with
+    | .arr #[x, y, z] => do pure ⟨← asRat x, ← asRat y, ← asRat z⟩
+    | _ => throw "point: three numbers expected")
+
+def close (a b : Rat) : Bool := decide (a - b ≤ 1 / 1000000) && decide (b - a ≤ 1 / 1000000)
+def closeP (p q : Vec3 Rat) : Bool := close p.x q.x && close p.y q.y && close p.z q.z
+/-- remove the first recorded pair that is close to `(p, q)` -/
+def takeClose (p q : Vec3 Rat) : List (Vec3 Rat × Vec3 Rat) → Option (List (Vec3 Rat × Vec3 Rat))
+  | [] => none
+  | x :: xs => if closeP p x.1 && closeP q x.2 then some xs else (takeClose p q xs).map (x :: ·)
+
+/-- the same (decoy, reference) pairs up to 1e-6, in any order (the order of the real run is the iteration order of a Python set) -/
+def samePairs : List (Vec3 Rat × Vec3 Rat) → List (Vec3 Rat × Vec3 Rat) → Bool
+  | [], rec => rec.isEmpty
+  | x :: xs, rec => match takeClose x.1 x.2 rec with
+    | some rest => samePairs xs rest
+    | none => false
+
+/-- the rotation kernel as recorded in the real run -/
+def kernelOf (j : Json) (k : String) : Except String (List (Vec3 Rat) → List (Vec3 Rat) → Unit → Except Err (Mat3 Rat)) := do
+  match j.getObjVal? k with
+  | .ok (.null) | .error _ => pure (fun _ _ _ => .error (.unmodelled "kernel not called in the real run"))
+  | .ok kj =>
+    match kj.getObjVal? "R" with
+    | .ok _ => do
+      let R ← mat3OfList (← jRatList kj "R")
+      let P ← jPoints kj "P"
+      let Q ← jPoints kj "Q"
+      pure (fun p q _ => if p.length = q.length && P.length = Q.length && samePairs (p.zip q) (P.zip Q) then .ok R else .error (.unmodelled "kernel called with other arrays than in the real run"))
+    | .error _ =>
+      match kj.getObjVal? "err" with
+      | .ok (.str "ERR:ValueError") => pure (fun _ _ _ => .error .valueError)
+      | .ok (.str "ERR:TypeError") => pure (fun _ _ _ => .error .typeError)
+      | _ => pure (fun _ _ _ => .error (.unmodelled "kernel: unknown record"))
+
+def optNames (j : Json) (k : String) : Except String (Option (List Str)) :=
+  match j.getObjVal? k with
+  | .ok (.null) | .error _ => pure none
+  | .ok _ => do pure (some (← jLines j k))
 
 def op (name : String) (j : Json) : Except String (Option Json) := do
   match name with
+  | "sim_fnat" =>
+    let refL ← jLines j "ref_lines"; let decL ← jLines j "dec_lines"
+    let cutoff ← jRat j "cutoff"
+    let w := world decL refL
+    let fn (ord : ∀ {α : Type}, List α → List α) := GenS.compute_fnat_pdb2sql ord w Model.Fnat.fixChainID "dec".toList "ref".toList cutoff
+    let c1 := (← jStr j "chain1").toList; let c2 := (← jStr j "chain2").toList
+    let cl (ord : ∀ {α : Type}, List α → List α) := GenS.compute_clashes ord w "dec".toList c1 c2
+    pure (some (Json.mkObj [("fnat", exceptJ ratJ (fn ordId)), ("fnat_rev", exceptJ ratJ (fn ordRev)),
+      ("clashes", exceptJ natJ (cl ordId)), ("clashes_rev", exceptJ natJ (cl ordRev))]))
+  | "sim_sql" =>
+    let refL ← jLines j "ref"; let decL ← jLines j "dec"
+    let cutoff ← jRat j "cutoff"
+    let enforce ← jBool j "enforce"
+    let names ← optNames j "names"
+    let w := world decL refL
+    let origin : Vec3 Rat := (GenS.__init__ "dec".toList "ref".toList false enforce).origin
+    -- check_residues(**kw)
+    let cr := GenS.check_residues w "dec".toList "ref".toList enforce names
+    -- get_identical_atoms(db1, db2, chain, **kw), for every chain asked for, with two set orders (the harness compares sorted)
+    let chains ← jLines j "chains"
+    let ident (ord : ∀ {α : Type}, List α → List α) : Json := .arr (chains.map (fun c =>
+      exceptJ (fun (p : List (Vec3 Rat) × List (Vec3 Rat)) => Json.arr #[p3sJ p.1, p3sJ p.2])
+        (do let td ← w "dec".toList; let tr ← w "ref".toList; GenS.get_identical_atoms ord td tr c names))).toArray
+    -- get_izone_rowID(sql_ref, izone) on the zone file of the case
+    let zfile : Option (List Str) := match jLines j "izone" with | .ok l => some l | .error _ => none
+    let isfile : Str → Bool := fun _ => zfile.isSome
+    let readlines : Str → Except Err (List Str) := fun _ => .ok (zfile.getD [])
+    let rowid (bb : Bool) := do let tr ← w "ref".toList; GenS.get_izone_rowID isfile readlines tr "IZ".toList bb
+    let natsJ (l : List Nat) : Json := .arr (l.map natJ).toArray
+    -- the routes
+    let kl ← kernelOf j "kernel_l"
+    let ki ← kernelOf j "kernel_i"
+    let lr (ord : ∀ {α : Type}, List α → List α) := GenS.compute_lrmsd_pdb2sql ord w kl "dec".toList "ref".toList enforce origin () names
+    let ir (ord : ∀ {α : Type}, List α → List α) := GenS.compute_irmsd_pdb2sql ord isfile readlines w ki "dec".toList "ref".toList origin cutoff ()
+      (if zfile.isSome then some "IZ".toList else none)
+    pure (some (Json.mkObj [
+      ("check_residues", exceptJ (fun b => Json.bool b) cr),
+      ("identical", ident ordId), ("identical_rev", ident ordRev),
+      ("izone_rowID", exceptJ natsJ (rowid true)), ("izone_rowID_all", exceptJ natsJ (rowid false)),
+      ("lrmsd", exceptJ ratJ (lr ordId)), ("lrmsd_rev", exceptJ ratJ (lr ordRev)),
+      ("irmsd", exceptJ ratJ (ir ordId)), ("irmsd_rev", exceptJ ratJ (ir ordRev))]))
+  | "sim_export" =>
+    -- the export variants of the two SQL routes (`exportpath` = "OUT"): value and the files written (name, exported rows)
+    let refL ← jLines j "ref"; let decL ← jLines j "dec"
+    let cutoff ← jRat j "cutoff"
+    let enforce ← jBool j "enforce"
+    let w := world decL refL
+    let origin : Vec3 Rat := (GenS.__init__ "dec".toList "ref".toList false enforce).origin
+    let kl ← kernelOf j "kernel_l"
+    let ki ← kernelOf j "kernel_i"
+    let rowJ (a : Atom) : Json := .arr #[strJ a.chainID, intJ a.resSeq, strJ a.name, ratJ a.x, ratJ a.y, ratJ a.z]
+    let outJ (x : Except Err (Rat × List GenS.Rt3.Export)) : Json :=
+      exceptJ (fun r => Json.mkObj [("value", ratJ r.1),
+        ("files", .arr (r.2.map (fun f => Json.arr #[strJ f.1, .arr (f.2.map rowJ).toArray])).toArray)]) x
+    pure (some (Json.mkObj [
+      ("lrmsd", outJ (GenS.compute_lrmsd_pdb2sql_export ordId w kl "dec".toList "ref".toList enforce origin "OUT".toList () none)),
+      ("irmsd", outJ (GenS.compute_irmsd_pdb2sql_export ordRev (fun _ => false) (fun _ => .ok []) w ki "dec".toList "ref".toList origin cutoff ()
+        none "OUT".toList))]))
   | _ => pure none
 
 end Driver.ExtSim
